@@ -577,9 +577,21 @@ func (st *ggState) buildPoints(d ggDraw, tier string) {
 			ntF = &c.fields[i]
 		}
 	}
+	var arrF *ggField // the count of the array the field belongs to
 	for i := range c.fields {
 		f := &c.fields[i]
 		var outer *ggField
+		switch f.Kind {
+		case "arrcount":
+			arrF = f
+		case "elemstrlen":
+			// a backward step over an element's own length field, once per declared element
+			if arrF != nil {
+				for _, j := range []uint64{1, 4, 8, 12, 16} {
+					st.points = append(st.points, ggPoint{kind: "ow", fld: f, off: f.Off, val: -j, sched: -1, all: true, fld2: arrF, val2: 1 << 62})
+				}
+			}
+		}
 		switch f.Kind {
 		case "arrcount", "strlen", "elemstrlen", "keylen":
 			outer = nkvF
